@@ -111,6 +111,36 @@ func ecPKCS8(curveOID string, scalar []byte, version int, innerVersion int) []by
 	return b
 }
 
+// PKCS#8 whose inner ECPrivateKey carries the optional members: [0] parameters (the curve OID), [1] publicKey
+func ecPKCS8Full(curveOID string, scalar []byte, params bool, pub []byte) []byte {
+	type ecPriv struct {
+		Version int
+		D       []byte
+		Params  asn1.ObjectIdentifier `asn1:"optional,explicit,tag:0"`
+		Pub     asn1.BitString        `asn1:"optional,explicit,tag:1"`
+	}
+	type algid struct {
+		Alg    asn1.ObjectIdentifier
+		Params asn1.ObjectIdentifier
+	}
+	type p8 struct {
+		Version int
+		Algo    algid
+		Key     []byte
+	}
+	oid, _ := parseOID(curveOID)
+	in := ecPriv{Version: 1, D: scalar}
+	if params {
+		in.Params = oid
+	}
+	if pub != nil {
+		in.Pub = asn1.BitString{Bytes: pub, BitLength: 8 * len(pub)}
+	}
+	ib, _ := asn1.Marshal(in)
+	b, _ := asn1.Marshal(p8{0, algid{asn1.ObjectIdentifier{1, 2, 840, 10045, 2, 1}, oid}, ib})
+	return b
+}
+
 func sameKey(a, b any) bool {
 	switch x := a.(type) {
 	case *ecdsa.PrivateKey:
@@ -226,6 +256,7 @@ func cmdKeys(args []string) int {
 	sc := bufio.NewScanner(f)
 	sc.Buffer(make([]byte, 1<<20), 1<<24)
 	var validDER [][]byte
+	nContainer := map[string]int{}
 	for sc.Scan() {
 		var kc keyCase
 		if json.Unmarshal(sc.Bytes(), &kc) != nil {
@@ -250,6 +281,45 @@ func cmdKeys(args []string) int {
 			validDER = append(validDER, der)
 		}
 		emit(o)
+		// the same valid scalar in the other legal shapes of the container: the inner ECPrivateKey may carry the curve
+		// again ([0] parameters) and the public point ([1] publicKey). A reader must end up with the key (D, D*G) whatever
+		// is embedded - the standard library ignores the embedded point and computes D*G
+		if kc.Label == "valid" && kc.What != "" && nContainer[kc.Curve] < 3 {
+			nContainer[kc.Curve]++
+			d := new(big.Int).SetBytes(toBytes(kc.Scalar))
+			x, y := c.ScalarBase(d)
+			ox, oy := c.ScalarBase(new(big.Int).Add(d, big.NewInt(2)))
+			size := (c.P.BitLen() + 7) / 8
+			point := func(x, y *big.Int) []byte {
+				b := make([]byte, 1+2*size)
+				b[0] = 4
+				x.FillBytes(b[1 : 1+size])
+				y.FillBytes(b[1+size:])
+				return b
+			}
+			for _, v := range []struct {
+				name   string
+				params bool
+				pub    []byte
+			}{{"parameters", true, nil}, {"own public point", false, point(x, y)}, {"parameters and own public point", true, point(x, y)},
+				{"another on-curve point as public key", false, point(ox, oy)}} {
+				o2 := &keyObs{What: "ec", Curve: kc.Curve, Label: kc.Label, Class: kc.What + " / container with " + v.name, Scalar: kc.Scalar, Stdlib: "n/a", FromStdlib: "n/a"}
+				der2 := ecPKCS8Full(c.OID, toBytes(kc.Scalar), v.params, v.pub)
+				pan, msg := util.Guard(func() {
+					key, err := cert.ParsePKCS8PrivateKey(der2)
+					if err != nil {
+						o2.Err = err.Error()
+						return
+					}
+					o2.Accepted = true
+					writeAndReread(o2, key)
+				})
+				if pan {
+					o2.Panic, o2.PanicMsg = true, msg
+				}
+				emit(o2)
+			}
+		}
 	}
 	f.Close()
 	// ---- rsa
